@@ -65,13 +65,14 @@ enum Sym {
     DataBit,
     DataTwoUnits,
     Res1,
+    Res0,
     Align2,
     AddrFwd,
     AddrStart,
     AddrEnd,
     Label,
 }
-const SYMS: [Sym; 11] = [Sym::BankA, Sym::BankB, Sym::DataUnit, Sym::DataBit, Sym::DataTwoUnits, Sym::Res1, Sym::Align2, Sym::AddrFwd, Sym::AddrStart, Sym::AddrEnd, Sym::Label];
+const SYMS: [Sym; 12] = [Sym::BankA, Sym::BankB, Sym::DataUnit, Sym::DataBit, Sym::DataTwoUnits, Sym::Res1, Sym::Res0, Sym::Align2, Sym::AddrFwd, Sym::AddrStart, Sym::AddrEnd, Sym::Label];
 
 struct Config {
     banks: Vec<BankSrc>,
@@ -175,6 +176,7 @@ fn build_prog(cfg: &Config, seq: &[usize]) -> Prog {
             Sym::DataBit => items.push(Item::Data(Some(1), vec!["1".into()])),
             Sym::DataTwoUnits => items.push(Item::Data(Some(2 * bits), vec!["3".into()])),
             Sym::Res1 => items.push(Item::Res("1".into())),
+            Sym::Res0 => items.push(Item::Res("0".into())),
             Sym::Align2 => items.push(Item::Align(format!("{}", 2 * bits))),
             Sym::AddrFwd => items.push(Item::Addr(format!("{}", addr + 1))),
             Sym::AddrStart => items.push(Item::Addr(format!("{}", addr))),
